@@ -13,6 +13,7 @@ import (
 func init() {
 	register("ERR-1", "recover barriers of RuleEntry.Evaluate / Execute assign the named results", 2, ruleERR1)
 	register("ERR-2", "no dropped error on the evaluation/action call tree", 60, ruleERR2)
+	register("ERR-4", "every recover barrier on the evaluation/action call tree reports through the function's error result and cannot itself panic", 4, ruleERR4)
 }
 
 // neverFails: callees documented never to return a non-nil error (frozen list, one reason: the type's documentation).
@@ -387,3 +388,42 @@ func ruleERR2(c *Ctx) {
 }
 
 var _ = types.Typ
+
+// ERR-4: all recover barriers of module functions reachable from RuleEntry.Evaluate/Execute.
+func ruleERR4(c *Ctx) {
+	p := c.P
+	a := c.eng()
+	if a.reEval == nil || a.reExec == nil {
+		c.AnchorLost("RuleEntry.Evaluate / Execute")
+		return
+	}
+	funcs := c.reachableModuleFuncs([]*ssa.Function{a.reEval, a.reExec}, true)
+	var fl []*ssa.Function
+	for f := range funcs {
+		fl = append(fl, f)
+	}
+	sort.Slice(fl, func(i, j int) bool { return fl[i].String() < fl[j].String() })
+	for _, fn := range fl {
+		for _, rb := range findRecoverBarriers(fn) {
+			construct := fnName(fn) + " / recover barrier"
+			// (a) the handler itself must not panic on the recovered value
+			var unsafe []string
+			for _, b := range rb.closure.Blocks {
+				for _, in := range b.Instrs {
+					if ta, ok := in.(*ssa.TypeAssert); ok && !ta.CommaOk && derivesFromValue(ta.X, rb.recoverRes) {
+						unsafe = append(unsafe, "unchecked type assertion of the recovered value to "+ta.AssertedType.String()+" at "+p.InstrPos(in))
+					}
+					if pn, ok := in.(*ssa.Panic); ok {
+						unsafe = append(unsafe, "re-panic at "+p.InstrPos(pn))
+					}
+				}
+			}
+			c.Check(len(unsafe) == 0, construct+" cannot itself panic on the recovered value", p.InstrPos(rb.deferInstr), "no unchecked type assertion / re-panic in the handler", "the recover handler can panic ("+strings.Join(unsafe, "; ")+"): a panic value that is not of that type escapes the engine")
+			// (b) when the function reports errors, the handler must assign its error result
+			if errResultIndex(fn.Signature) >= 0 {
+				ok, why := barrierAssignsError(fn, rb, false, false)
+				c.Check(ok, construct+" reports through the function's error result", p.InstrPos(rb.deferInstr), "assigns a non-nil error to the named error result", why+": a recovered panic is reported as success")
+			}
+		}
+	}
+}
